@@ -111,7 +111,17 @@ def nested_configs(mode=None):
     from corankco.algorithms.borda.borda import BordaCount
     from corankco.algorithms.pickaperm.pickaperm import PickAPerm
     from corankco.algorithms.parcons.parcons import ParCons
+    from corankco.algorithms.exact.exactalgorithm import ExactAlgorithm
+    from corankco.algorithms.copeland.copeland import CopelandMethod
+    mode = mode or _state['mode']
+    solver = 'cbc' if mode == 'absent' else 'enum'
     return [
+        Config('BioConsert[Exact,Borda]', lambda: BioConsert([ExactAlgorithm(), BordaCount()]), {'bio', solver, 'needs_borda'}),
+        Config('BioConsert[Exact,PickAPerm]', lambda: BioConsert([ExactAlgorithm(), PickAPerm()]), {'bio', solver, 'needs_pick'}),
+        Config('BioConsert[ParCons,Borda(bucket_id)]', lambda: BioConsert([ParCons(), BordaCount(use_bucket_id=True)]),
+               {'bio', solver, 'needs_borda'}),
+        Config('BioConsert[Borda,Exact]', lambda: BioConsert([BordaCount(), ExactAlgorithm()]), {'bio', solver, 'needs_borda'}),
+        Config('BioConsert[Copeland,Borda]', lambda: BioConsert([CopelandMethod(), BordaCount()]), {'bio', 'fast', 'needs_borda'}),
         Config('BioConsert[BioCo]', lambda: BioConsert([BioCo()]), {'bio', 'fast', 'needs_borda'}),
         Config('ParCons(b=0,Borda)', lambda: ParCons(BordaCount(), 0), {'parcons', 'fast', 'needs_borda'}),
         Config('ParCons(b=1,BioCo)', lambda: ParCons(BioCo(), 1), {'parcons', 'fast', 'needs_borda'}),
